@@ -1,6 +1,6 @@
 """C17 - snapshot and restore reproduce the database exactly.
 Proof: coq/theories/Properties/C17.v (models Db/Content.v, Db/Timeline.v, Db/Snapshot.v, Db/RwLock.v,
-Db/Reader.v, Db/RestoreX.v, Db/RestoreJoin.v, Db/SnapPath.v, Db/RestoreMeta.v).
+Db/Reader.v, Db/RestoreX.v, Db/RestoreJoin.v, Db/SnapPath.v, Db/RestoreMeta.v, Db/SnapView.v).
 Correspondence: histories (state A through real stores and raw writes; Snapshot / SnapshotInTx in a
 read or write transaction / StreamToWriter; snapshots through path templates - every placeholder,
 relative / absolute, existing files and directories at the target, the default path, the database
@@ -66,6 +66,8 @@ def split_ops(case):
             i += 1
             if kind == "upd":
                 i = wops(wops(i + 1))
+            elif kind == "stale":
+                i = wops(i + 1)
         elif op == "snapp":
             i += 9
             kind = t[i]
@@ -84,7 +86,7 @@ def split_ops(case):
                 i = call_end(t, i + 1)
         elif op == "call":
             i = call_end(t, i)
-        elif op in ("addlt", "addlw"):
+        elif op in ("addlt", "addlw", "addld"):
             i += 1
         elif op == "tl":
             ok = t[i + 1]
@@ -305,6 +307,23 @@ def check_calls_during(sc, g, prev_raw, live_before, f, how):
     return None
 
 
+def returning(lkinds, lkdeps):
+    """which of the registered listeners can return: everything but a blocker and those that wait for one
+    (or for themselves, or for a listener that is not registered)"""
+    out = []
+    for n in range(len(lkinds)):
+        j, ok = n, False
+        for _ in range(len(lkinds) + 1):
+            if j < 0 or j >= len(lkinds) or lkinds[j] == "b":
+                break
+            if lkinds[j] != "d":
+                ok = True
+                break
+            j = int(lkdeps[j])
+        out.append(ok)
+    return out
+
+
 def oracle(case, impl):
     """evaluate what the property demands on the implementation's observations of one history.
     Returns (key, message, index of the offending operation) or None."""
@@ -315,7 +334,8 @@ def oracle(case, impl):
     live_before = {}
     files = []          # per produced file: dict(kind, id, at_snapshot, op)
     listeners = 0
-    lkinds = []         # kinds of the registered restore listeners: c count, v view, s snapshot id, t timeline id, w write
+    lkinds = []         # kinds of the registered restore listeners: c count, v view, s snapshot id, t timeline id, w write, b blocks, d waits
+    lkdeps = []         # for d: the number of the listener it waits for
     fired = 0
     pending = None      # after a restore of a snapshot: what the timeline requests must do
     after_restore = ""  # how that restore was made
@@ -363,12 +383,28 @@ def oracle(case, impl):
                 return ("C17:snapshot-failed", "snapshot operation failed: %s" % show_head(head)[:300], i)
             f = parse_dump(bracket(g, "F") or "-")
             files.append(dict(kind="snap", id=head[1], at=live_before, op=i, content=f, raw=bracket(g, "F")))
+            if op[1] == "stale":
+                # SnapshotInTx inside a read transaction that was opened before another goroutine's transaction:
+                # the file has to hold what THAT transaction sees (V: walked through it right before the call)
+                seen_raw = bracket(g, "V") or "-"
+                if seen_raw.startswith("changed-within-the-transaction:"):
+                    return ("C17:harness-output", "a bbolt read transaction saw another transaction's commit (not a matter of C17)", i)
+                seen = parse_dump(seen_raw)
+                if strip_markers(f) != strip_markers(seen):
+                    leaked = [p for p, v in strip_markers(f).items() if strip_markers(seen).get(p) != v and live.get(p) == v]
+                    gone = [p for p in strip_markers(seen) if p not in f]
+                    return ("C17:snapshot-content", "SnapshotInTx(tx) inside a read transaction that was opened before another goroutine %s a transaction: "
+                            "the file does not hold what that transaction sees (%d entries as committed LATER, after the transaction began: %s; %d entries of its view missing) - "
+                            "the snapshot is not the state of the transaction it was taken in"
+                            % ("committed" if bracket(g, "T") == "1" else "rolled back", len(leaked), ",".join(sorted(leaked)[:4]) or "-", len(gone)), i)
             # the markers go into the copy
             if strip_markers(f) != strip_markers(live_before):
                 return ("C17:snapshot-content", "snapshot file differs from the content committed at snapshot time", i)
             if f.get(SNAPID) != "=05" + head[1] or f.get(RESET) != "=0101":
                 return ("C17:snapshot-markers", "snapshot file lacks the snapshot-id / reset markers", i)
-            if op[1] == "upd" and op[2] == "1":
+            if op[1] == "stale":
+                pending = None      # the other goroutine's transaction may rewrite the meta bucket
+            elif op[1] == "upd" and op[2] == "1":
                 pending = None      # the surrounding write transaction may rewrite the meta bucket
             elif live != live_before:
                 return ("C17:snapshot-changes-live", "taking a snapshot changed the live database", i)
@@ -424,6 +460,23 @@ def oracle(case, impl):
                     return ("C17:restore-markers", "restored database lacks the markers of its snapshot", i)
                 fired += listeners
                 got = int(head[1].split("=")[1])
+                if any(x in ("b", "d") for x in lkinds):
+                    # listeners that do not return by themselves (b: blocks for good, d: waits for another listener):
+                    # every registered listener has to be started all the same, and those that can return have to
+                    sobs = (bracket(g, "S") or "").split(",")
+                    names = ["%d:%s" % (n, lk + (lkdeps[n] if lk == "d" else "")) for n, lk in enumerate(lkinds)]
+                    if len(sobs) == len(lkinds):
+                        for n, (lk, so) in enumerate(zip(lkinds, sobs)):
+                            if so == "-":
+                                return ("C17:restore-listeners", "restore listener %d of %d was never started by %s: the listeners are [%s] "
+                                        "(b = does not return, d<j> = returns once listener j has returned) and the observations %s - "
+                                        "a listener that does not return keeps the listeners registered after it from firing"
+                                        % (n, len(lkinds), how, " ".join(names), ",".join(sobs)), i)
+                        ret = returning(lkinds, lkdeps)
+                        for n, (lk, so) in enumerate(zip(lkinds, sobs)):
+                            if ret[n] and so.endswith(":waiting"):
+                                return ("C17:restore-listeners", "restore listener %d (waits for listener %s, which returns) did not return after %s: listeners [%s], observations %s"
+                                        % (n, lkdeps[n], how, " ".join(names), ",".join(sobs)), i)
                 if got != fired:
                     return ("C17:restore-listeners", "restore listeners fired %d times in total, expected %d" % (got, fired), i)
                 if any(x != "c" for x in lkinds):
@@ -432,6 +485,8 @@ def oracle(case, impl):
                     if len(sobs) != len(lkinds):
                         return ("C17:restore-listeners", "%d restore listeners reported, %d are registered" % (len(sobs), len(lkinds)), i)
                     for n, (lk, so) in enumerate(zip(lkinds, sobs)):
+                        if lk in ("b", "d"):
+                            continue
                         if so == "-" or so.endswith(":err"):
                             return ("C17:restore-listener-error", "restore listener %d (%s) failed to use the database after the restore: %s" % (n, lk, so), i)
                         if lk == "s" and f["kind"] == "snap" and so != "s:" + f["id"]:
@@ -490,6 +545,7 @@ def oracle(case, impl):
         elif kind.startswith("addl"):
             listeners += 1
             lkinds.append(kind[4:] or "c")
+            lkdeps.append(op[1] if kind == "addld" else "")
         live_before = live
     return None
 
@@ -591,6 +647,8 @@ def simpler_readers(op):
             yield op[:9] + ["-"] + op[10:]
         if op[10] != "plain":
             yield op[:10] + ["plain"]
+    if op[0] == "snap" and op[1] == "stale":
+        yield ["snap", "view"]
     if op[0] not in ("restorer", "restorec"):
         return
     yield ["restore", op[1]]
@@ -715,6 +773,7 @@ def main(argv):
         "Db/RestoreJoin.v: listeners as transaction threads gated by the reopen, on top of Db/RwLock.v",
         "Db/SnapPath.v: strings.ReplaceAll and the eight placeholder replacements of SnapshotInTx transcribed over byte strings; the file system as a map from names to snapshot files; the expansion's environment (date, time, filepath.Dir/Base of the database path) is taken from the harness as observed",
         "Db/RestoreMeta.v: metadata calls (GetSnapshotId, GetTimelineId, View, Stats, GetDefaultSnapshotPath) made from inside the reader of RestoreFromReader = calls on the database before the restore (persistSnapshot precedes the lock); racing calls = calls before / after the atomic swap; Stats and GetDefaultSnapshotPath have no state in the model (observations: a read transaction moves Stats().TxN by one; the path is <database path>-<date>-<time>)",
+        "Db/SnapView.v: SnapshotInTx as a function of the view of the transaction it is given (a read transaction keeps what was committed when it began - bbolt's MVCC, trusted and observed: the harness walks the old transaction right before the call); restore listeners that block / wait for each other as a small-step system, one goroutine per listener",
         "Db/RwLock.v: sync.RWMutex modelled by its specification (readers exclude the writer; optional writer preference)",
         "NOT modelled, exercised only: os.Rename, bbolt Open/Close/CopyFile/WriteTo, sync.RWMutex, goroutine scheduling (all schedules are quantified over on the model only)",
         "uuid.NewString freshness (model: a counter)",
